@@ -82,7 +82,7 @@ theorem gen_pebbling_eq_model (D : DiG) (h : TopoDAG D) :
       have hmem1 : Con.clause ((D.preds v).map (fun p => - Pebbling.x D.n p) ++ [Pebbling.x D.n v]) ∈ (peb D).cons := by
         simp only [peb, List.mem_flatMap]
         exact ⟨v, by rw [verts_eq_idx]; exact hv, by simp⟩
-      rw [add_clause_checked s ((D.preds v).map (fun p => - Pebbling.x D.n p) ++ [Pebbling.x D.n v])
+      rw [lits_append_inl, Py.ok_bind, add_clause_checked s ((D.preds v).map (fun p => - Pebbling.x D.n p) ++ [Pebbling.x D.n v])
         (lits_ok_of_wf hwf hmem1 s hs), Py.ok_bind]
       rw [hout, Py.ok_bind]
       by_cases h0 : (D.succs v).length = 0
